@@ -4,7 +4,7 @@
    per-feature loop, the iteration loop (induction on the budget), the per-feature body, the
    outer loop over the features. *)
 From Coq Require Import ZArith QArith Qabs List Bool Lia.
-From TP Require Import Model.COM Model.PyKernel Gen.com_kernels Model.COMGen.
+From TP Require Import Model.COM Proofs.COM Model.PyKernel Gen.com_kernels Model.COMGen.
 Import ListNotations.
 Open Scope Z_scope.
 
@@ -642,4 +642,156 @@ Section K3D.
       rewrite (combine_nth' _ _ x2 mpts i 0 [] Hx2). cbn [fst snd].
       rewrite !get1_col, !get1_nth. reflexivity.
   Qed.
+
+  Variable coords : list (list Z).
+  Variable maxit : Z.
+  Hypothesis Hmaxit : 1 <= maxit.
+  Variable characterize : bool.
+
+  Definition start3D (feat : Z) : list Z := [get2 coords feat 0; get2 coords feat 1; get2 coords feat 2].
+  Definition run3D : list Z -> kres output :=
+    k_run pix rawp rad [sZ; sY; sX] thresh mpts r2 [z2; y2; x2] (Z.to_nat maxit) characterize.
+
+  (* isotropic = (radiusX == radiusY and radiusX == radiusZ) *)
+  Definition iso3 : bool := (rX =? rY) && (rX =? rZ).
+  Lemma iso3_eq : iso3 = isotropic rad.
+  Proof.
+    unfold iso3, isotropic. cbn [forallb hd]. rewrite Z.eqb_refl, andb_true_r. cbn [andb].
+    destruct (Z.eqb_spec rX rY), (Z.eqb_spec rX rZ), (Z.eqb_spec rY rZ); subst; cbn; try reflexivity; try lia.
+  Qed.
+
+  Definition colsel (iso : bool) (a b : Z) : Z := if iso then a else b.
+
+  Local Notation state3D_feat :=
+    (Z * Z * Z * Q * Q * Q * Z * Z * Z * Q * Z * Q * Q * Q * Q * Q * Q * list (list cell) * Q * Q * Q * Q * Q * Q)%type.
+  Definition getr3D (s : state3D_feat) : list (list cell) := snd (fst (fst (fst (fst (fst (fst s)))))).
+
+  Definition loop1_3D (iso : bool) :=
+    numba_refine_3D_loop1 raw_image image rZ rY rX coords maxit thresh characterize (col 0 mpts) (col 1 mpts) (col 2 mpts)
+      (Z.of_nat (length mpts)) r2 z2 y2 x2 3 iso (colsel iso 4 0) (colsel iso 6 8) (colsel iso 7 9) (colsel iso 0 4) (colsel iso 0 5) (colsel iso 0 6)
+      (ub sZ rZ) (ub sY rY) (ub sX rX).
+
+  Lemma feat3D : forall feat (s : state3D_feat),
+    match feat_step run3D start3D (cells_3D characterize iso3) feat (getr3D s) with
+    | DivZero => loop1_3D iso3 feat s = DivZero
+    | Ok r' => exists s', loop1_3D iso3 feat s = Ok (false, s') /\ getr3D s' = r'
+    end.
+  Proof.
+    intros feat s.
+    destruct s as [[[[[[[[[[[[[[[[[[[[[[[cZ0 cY0] cX0] a] b] c] d] e] f] g] h] j] k] l] m] n] o] results] rm] rg] rgz] rgy] rgx] sg].
+    unfold feat_step, run3D, k_run, start3D, loop1_3D, numba_refine_3D_loop1, for_break, getr3D. cbn [snd fst].
+    rewrite (to_nat_succ maxit Hmaxit). cbn [pred].
+    pose proof (iter3D (pred (Z.to_nat maxit)) 0 a b c d e f g h j k l m n o (get2 coords feat 0) (get2 coords feat 1) (get2 coords feat 2)) as H.
+    fold body3D.
+    destruct (k_loop pix rad [sZ; sY; sX] thresh mpts (pred (Z.to_nat maxit)) [get2 coords feat 0; get2 coords feat 1; get2 coords feat 2]) as [ks|].
+    2: { rewrite H. reflexivity. }
+    destruct H as [st' [E R]]. rewrite E. cbn [bind].
+    destruct st' as [[[[[[[[[[[[[[[[a' b'] c'] d'] e'] f'] g'] h'] j'] k'] l'] m'] n'] o'] cZ'] cY'] cX'].
+    destruct R as [Rs [Rc [Rm Rnz]]]. apply Z.eqb_neq in Rnz. subst g'.
+    pose proof iso3_eq as Hiso.
+    unfold write_cells, cells_3D, size2, signal_of, raw_of, k_output.
+    destruct characterize; cbn [negb]; [destruct iso3; rewrite <- Hiso|].
+    - cbv beta iota zeta. destruct (char3i d' e' f' h') as [px' Ec]. rewrite Ec. cbv beta iota zeta.
+      rewrite qeqb_inj0, Rnz. cbn [bind]. cbv beta iota zeta.
+      eexists. split; [reflexivity|]. cbn [snd fst].
+      cbn [map app fold_left fst snd o_pos o_mass o_char qx nth colsel]. rewrite Rc, Rs. reflexivity.
+    - cbv beta iota zeta. destruct (char3a d' e' f' h') as [px' Ec]. rewrite Ec. cbv beta iota zeta.
+      rewrite !qeqb_inj0, Rnz. cbn [bind]. cbv beta iota zeta.
+      eexists. split; [reflexivity|]. cbn [snd fst].
+      cbn [map app fold_left fst snd o_pos o_mass o_char qx nth colsel]. rewrite Rc, Rs. reflexivity.
+    - cbn [bind]. cbv beta iota zeta.
+      eexists. split; [reflexivity|]. cbn [snd fst].
+      cbn [map app fold_left fst snd o_pos o_mass o_char qx nth colsel]. rewrite Rc. reflexivity.
+  Qed.
+
+  Theorem generated_3D : forall N results,
+    numba_refine_3D raw_image image rZ rY rX coords N maxit thresh characterize sZ sY sX (col 0 mpts) (col 1 mpts) (col 2 mpts)
+                    (Z.of_nat (length mpts)) r2 z2 y2 x2 results
+    = feats (feat_step run3D start3D (cells_3D characterize iso3)) (Z.to_nat N) 0 results.
+  Proof.
+    intros. unfold numba_refine_3D, for_break. fold iso3 (ub sZ rZ) (ub sY rY) (ub sX rX).
+    pose proof (for_break_feats _ getr3D _ _ feat3D (Z.to_nat N) 0
+                  (0, 0, 0, 0%Q, 0%Q, 0%Q, 0, 0, 0, 0%Q, 0, 0%Q, 0%Q, 0%Q, 0%Q, 0%Q, 0%Q, results, 0%Q, 0%Q, 0%Q, 0%Q, 0%Q, 0%Q)) as H.
+    unfold getr3D at 1 2 in H. cbn [snd fst] in H. unfold loop1_3D in H.
+    destruct (feats (feat_step run3D start3D (cells_3D characterize iso3)) (Z.to_nat N) 0 results) as [r'|].
+    - destruct H as [s' [E G]]. destruct iso3; unfold colsel in E; cbv beta iota zeta; rewrite E; cbn [bind];
+        destruct s' as [[[[[[[[[[[[[[[[[[[[[[[cZ0 cY0] cX0] a] b] c] d] e] f] g] h] j] k] l] m] n] o] res'] rm] rg] rgz] rgy] rgx] sg];
+        cbn in G; subst; reflexivity.
+    - destruct iso3; unfold colsel in H; cbv beta iota zeta; rewrite H; reflexivity.
+  Qed.
 End K3D.
+
+(* ================= the four kernels against refine_numba, arguments as refine_com_arr prepares them ================= *)
+Theorem gen_2D_is_model : forall image rawpix rY rX coords N max_iterations thresh sY sX results,
+  let radius := [rY; rX] in
+  let mpts := mask_points radius in
+  numba_refine_2D image rY rX coords N (Z.max 1 max_iterations) thresh sY sX (col 0 mpts) (col 1 mpts) (Z.of_nat (length mpts)) results =
+  feats (feat_step (refine_numba (img2 image) rawpix radius [sY; sX] thresh max_iterations false)
+                   (fun feat => [get2 coords feat 0; get2 coords feat 1]) cells_2D) (Z.to_nat N) 0 results.
+Proof.
+  intros. subst radius mpts.
+  rewrite (generated_2D image rY rX sY sX thresh (mask_points [rY; rX]) coords (Z.max 1 max_iterations) ltac:(lia) rawpix
+                        (r2m [rY; rX]) [x2m [rY; rX] 0; x2m [rY; rX] 1]).
+  reflexivity.
+Qed.
+
+Theorem gen_2D_c_is_model : forall raw_image image rY rX coords N max_iterations thresh sY sX cmask smask results,
+  rY = rX ->
+  let radius := [rY; rX] in
+  let mpts := mask_points radius in
+  numba_refine_2D_c raw_image image rY rX coords N (Z.max 1 max_iterations) thresh sY sX (col 0 mpts) (col 1 mpts) (Z.of_nat (length mpts))
+                    (r2m radius) cmask smask results =
+  feats (feat_step (refine_numba (img2 image) (img2 raw_image) radius [sY; sX] thresh max_iterations true)
+                   (fun feat => [get2 coords feat 0; get2 coords feat 1]) cells_2D_c) (Z.to_nat N) 0 results.
+Proof.
+  intros. subst radius mpts.
+  rewrite (generated_2D_c raw_image image rY rX sY sX thresh (mask_points [rY; rX]) (r2m [rY; rX])
+                          ltac:(unfold r2m; apply map_length) H coords (Z.max 1 max_iterations) ltac:(lia)
+                          [x2m [rY; rX] 0; x2m [rY; rX] 1]).
+  reflexivity.
+Qed.
+
+Theorem gen_2D_c_a_is_model : forall raw_image image rY rX coords N max_iterations thresh sY sX cmask smask results,
+  rY <> rX ->
+  let radius := [rY; rX] in
+  let mpts := mask_points radius in
+  numba_refine_2D_c_a raw_image image rY rX coords N (Z.max 1 max_iterations) thresh sY sX (col 0 mpts) (col 1 mpts) (Z.of_nat (length mpts))
+                      (x2m radius 0) (x2m radius 1) cmask smask results =
+  feats (feat_step (refine_numba (img2 image) (img2 raw_image) radius [sY; sX] thresh max_iterations true)
+                   (fun feat => [get2 coords feat 0; get2 coords feat 1]) cells_2D_c_a) (Z.to_nat N) 0 results.
+Proof.
+  intros. subst radius mpts.
+  rewrite (generated_2D_c_a raw_image image rY rX sY sX thresh (mask_points [rY; rX]) (x2m [rY; rX] 0) (x2m [rY; rX] 1)
+                            ltac:(unfold x2m; apply map_length) ltac:(unfold x2m; apply map_length) H coords (Z.max 1 max_iterations) ltac:(lia)
+                            (r2m [rY; rX])).
+  reflexivity.
+Qed.
+
+Theorem gen_3D_is_model : forall raw_image image rZ rY rX coords N max_iterations thresh characterize sZ sY sX results,
+  let radius := [rZ; rY; rX] in
+  let mpts := mask_points radius in
+  numba_refine_3D raw_image image rZ rY rX coords N (Z.max 1 max_iterations) thresh characterize sZ sY sX
+                  (col 0 mpts) (col 1 mpts) (col 2 mpts) (Z.of_nat (length mpts))
+                  (r2m radius) (x2m radius 0) (x2m radius 1) (x2m radius 2) results =
+  feats (feat_step (refine_numba (img3 image) (img3 raw_image) radius [sZ; sY; sX] thresh max_iterations characterize)
+                   (fun feat => [get2 coords feat 0; get2 coords feat 1; get2 coords feat 2])
+                   (cells_3D characterize (isotropic radius))) (Z.to_nat N) 0 results.
+Proof.
+  intros. subst radius mpts.
+  rewrite (generated_3D raw_image image rZ rY rX sZ sY sX thresh (mask_points [rZ; rY; rX])
+                        (r2m [rZ; rY; rX]) (x2m [rZ; rY; rX] 0) (x2m [rZ; rY; rX] 1) (x2m [rZ; rY; rX] 2)
+                        ltac:(unfold r2m; apply map_length) ltac:(unfold x2m; apply map_length)
+                        ltac:(unfold x2m; apply map_length) ltac:(unfold x2m; apply map_length)
+                        coords (Z.max 1 max_iterations) ltac:(lia) characterize).
+  rewrite iso3_eq. reflexivity.
+Qed.
+
+(* with Proofs/COM.engines_agree: the row a generated kernel writes is the reference engine's row *)
+Theorem generated_row_is_reference_row : forall pix rawpix radius shape thresh max_iterations characterize start cells feat results,
+  (0 <= thresh)%Q -> (2 <= length radius)%nat -> Forall (fun r => 1 <= r) radius ->
+  ref_nonzero pix radius shape thresh (binary_mask radius) (pred (iters_of max_iterations)) (start feat) = true ->
+  feat_step (refine_numba pix rawpix radius shape thresh max_iterations characterize) start cells feat results =
+  Ok (write_cells results feat (cells (refine_python pix rawpix radius shape thresh max_iterations characterize (start feat)))).
+Proof.
+  intros. unfold feat_step. rewrite engines_agree by assumption. rewrite H2. reflexivity.
+Qed.
